@@ -505,6 +505,7 @@ func (env *SpecEnv) field(e *SExpr) Val {
 		env.fail("no field %s in %v", e.Name, base.GT)
 	}
 	cur := base
+	ownRef, ownEntry := base.OwnRef, base.OwnEntry
 	for _, idx := range path {
 		// auto-deref pointers
 		refTerm := ""
@@ -513,6 +514,10 @@ func (env *SpecEnv) field(e *SExpr) Val {
 			hn, hs := ex.heapOfType(pt.Elem())
 			refTerm, pointee = cur.T, pt.Elem()
 			cur = Val{T: sel(ex.H(env.cur, hn, hs), cur.T), S: ex.reg.SortOf(pt.Elem()), GT: pt.Elem()}
+			ownRef, ownEntry = refTerm, ""
+			if ex.entry != nil {
+				ownEntry = sel(ex.H(ex.entry, hn, hs), refTerm)
+			}
 		}
 		si := ex.reg.StructInfoOf(cur.GT)
 		if si == nil {
@@ -520,6 +525,9 @@ func (env *SpecEnv) field(e *SExpr) Val {
 		}
 		fl := si.Fields[idx]
 		cur = Val{T: app(fl.Acc, cur.T), S: fl.Sort, GT: fl.T}
+		if ownEntry != "" {
+			ownEntry = app(fl.Acc, ownEntry)
+		}
 		// references stored in a heap are allocated: <= the break of that state, and whatever the
 		// function-entry heap holds at the same address is <= the entry break
 		if env.cur != nil && env.cur.brk != "" && !env.mentionsBound(cur.T) {
@@ -550,8 +558,17 @@ func (env *SpecEnv) field(e *SExpr) Val {
 					hn, hs := ex.heapOfType(pointee)
 					allocFact(app(fl.Acc, sel(ex.H(ex.entry, hn, hs), refTerm)), ex.entry.brk, fmt.Sprintf("(<= %s %s)", refTerm, ex.entry.brk))
 				}
+			} else if ownRef != "" && !env.mentionsBound(ownRef) {
+				// a pointer nested in a struct-valued field of heap object ownRef
+				allocFact(cur.T, env.cur.brk, fmt.Sprintf("(<= %s %s)", ownRef, env.cur.brk))
+				if ownEntry != "" {
+					allocFact(ownEntry, ex.entry.brk, fmt.Sprintf("(<= %s %s)", ownRef, ex.entry.brk))
+				}
 			}
 		}
+	}
+	if _, isStruct := cur.GT.Underlying().(*types.Struct); isStruct {
+		cur.OwnRef, cur.OwnEntry = ownRef, ownEntry
 	}
 	return cur
 }
